@@ -262,10 +262,38 @@ func (c Collection) characterizeAndFlatten(nonStaticTypes map[typeCode]bool) ([]
 			for _, out := range cfm.flows[outputParams] {
 				nonStaticTypes[out] = true
 			}
-			for tc := range cfm.loose {
-				nonStaticTypes[tc] = true
+		}
+	}
+
+	// An interface input may be satisfied by the output of a provider that is
+	// Loose for it: such an input is as static as those outputs are.
+	looseFor := make(map[typeCode][]typeCode)
+	for _, fm := range c.contents {
+		if fm.fatal != nil || len(fm.loose) == 0 {
+			continue
+		}
+		_, outs := fm.DownFlows()
+		for tc := range fm.loose {
+			if tc.Type().Kind() != reflect.Interface {
+				continue
+			}
+			for _, out := range outs {
+				if out.Implements(tc.Type()) {
+					looseFor[tc] = append(looseFor[tc], getTypeCode(out))
+				}
 			}
 		}
+	}
+	nonStatic := func(in typeCode) bool {
+		if nonStaticTypes[in] {
+			return true
+		}
+		for _, tc := range looseFor[in] {
+			if nonStaticTypes[tc] {
+				return true
+			}
+		}
+		return false
 	}
 
 	for ii, fm := range c.contents {
@@ -283,7 +311,7 @@ func (c Collection) characterizeAndFlatten(nonStaticTypes map[typeCode]bool) ([]
 
 		if fm.group == staticGroup {
 			for _, in := range fm.flows[inputParams] {
-				if nonStaticTypes[in] {
+				if nonStatic(in) {
 					cc.inputsAreStatic = false
 					fm, err = characterizeFunc(fm, cc)
 					if err != nil {
@@ -299,11 +327,6 @@ func (c Collection) characterizeAndFlatten(nonStaticTypes map[typeCode]bool) ([]
 		case runGroup, invokeGroup:
 			for _, out := range fm.flows[outputParams] {
 				nonStaticTypes[out] = true
-			}
-			// an interface that this provider may satisfy (Loose) is not
-			// static either: its consumers must not be hoisted
-			for tc := range fm.loose {
-				nonStaticTypes[tc] = true
 			}
 		}
 
